@@ -122,6 +122,30 @@ class HookedList(list):
             st.removals.append((self._symx_name, st.clock.t))
         list.__delitem__(self, k)
 
+    def remove(self, v):
+        st = _STATE
+        if st is not None and st.clock.active:
+            st.removals.append((self._symx_name, st.clock.t))
+        list.remove(self, v)
+
+    def insert(self, i, v):
+        st = _STATE
+        if st is not None and st.clock.active and i < len(self):
+            st.removals.append((self._symx_name + " (reordered)", st.clock.t))
+        list.insert(self, i, v)
+
+    def sort(self, *a, **k):
+        st = _STATE
+        if st is not None and st.clock.active and len(self) > 1:
+            st.removals.append((self._symx_name + " (sorted in place)", st.clock.t))
+        list.sort(self, *a, **k)
+
+    def reverse(self):
+        st = _STATE
+        if st is not None and st.clock.active and len(self) > 1:
+            st.removals.append((self._symx_name + " (reversed in place)", st.clock.t))
+        list.reverse(self)
+
     def __getitem__(self, k):
         v = list.__getitem__(self, k)
         st = _STATE
@@ -246,6 +270,20 @@ def discover(pkg_prefix="a5"):
             elif hasattr(val, "__dict__") and not isinstance(val, (type, types.ModuleType, types.FunctionType)) \
                     and type(val).__module__.startswith(pkg_prefix):
                 _walk_instance("%s.%s" % (modname, name), val, found, seen, 0)
+        # mutable default arguments of the module's functions and methods are shared between all calls
+        funcs = []
+        for name, val in sorted(vars(mod).items()):
+            if isinstance(val, types.FunctionType) and val.__module__ == modname:
+                funcs.append(("%s.%s" % (modname, name), val))
+            elif isinstance(val, type) and val.__module__ == modname:
+                for mname, mval in sorted(vars(val).items()):
+                    if isinstance(mval, types.FunctionType):
+                        funcs.append(("%s.%s.%s" % (modname, name, mname), mval))
+        for fname, fn in funcs:
+            for i, d in enumerate(fn.__defaults__ or ()):
+                if isinstance(d, (list, dict)) and id(d) not in seen:
+                    seen.add(id(d))
+                    found.append(("%s.__defaults__[%d]" % (fname, i), ("default", fn, i), d))
     return found
 
 
@@ -286,11 +324,23 @@ def hook_all(found):
         if kind == "attr":
             setattr(owner, attr, h)
             undo.append((owner, attr, val))
+        elif kind == "default":
+            ds = list(owner.__defaults__)
+            ds[attr] = h
+            owner.__defaults__ = tuple(ds)
+            undo.append(("default", owner, attr, val))
         hooked.append((name, h))
 
     def undo_all():
-        for owner, attr, val in reversed(undo):
-            setattr(owner, attr, val)
+        for u in reversed(undo):
+            if u[0] == "default":
+                _, fn, i, val = u
+                ds = list(fn.__defaults__)
+                ds[i] = val
+                fn.__defaults__ = tuple(ds)
+            else:
+                owner, attr, val = u
+                setattr(owner, attr, val)
     return hooked, undo_all
 
 
